@@ -168,12 +168,23 @@ def enumerate_mutants(only, ops):
             rel = os.path.relpath(p, REPO)
             if only and not re.search(only, rel):
                 continue
-            for i, l in code_lines(p):
+            cl = code_lines(p)
+            for i, l in cl:
                 for name, fn in OPS:
                     if ops and name not in ops:
                         continue
                     for new in fn(l):
                         muts.append({'file': rel, 'line': i + 1, 'op': name, 'old': l.strip(), 'new': new.strip(), 'new_raw': new})
+            # statement-level operators on pairs of adjacent simple statements of the same block
+            simple = re.compile(r'^(\s*)(?!let |return|break|continue|if |for |while |match |\}|//)[\w\.\(\)&\*:<>, !\[\]\"\'{}$=+\-?|]+;\s*$')
+            for (i, l), (j, l2) in zip(cl, cl[1:]):
+                m1, m2 = simple.match(l), simple.match(l2)
+                if j == i + 1 and m1 and m2 and m1.group(1) == m2.group(1) and l.strip() != l2.strip():
+                    if not ops or 'swap-stmts' in ops:
+                        muts.append({'file': rel, 'line': i + 1, 'op': 'swap-stmts', 'old': l.strip() + ' / ' + l2.strip(), 'new': l2.strip() + ' / ' + l.strip(), 'new_raw': l2, 'line2': j + 1, 'new_raw2': l})
+            for i, l in cl:
+                if (not ops or 'dup-stmt' in ops) and re.match(r'^\s*[\w\.\(\)&\*]+\.(push|push_back|push_front|push_str|insert|remove\w*|pop\w*|reverse|append|extend)\(.*\);\s*$', l) and 'let ' not in l:
+                    muts.append({'file': rel, 'line': i + 1, 'op': 'dup-stmt', 'old': l.strip(), 'new': l.strip() + ' ' + l.strip(), 'new_raw': l + '\n' + l})
     return muts
 
 
@@ -207,9 +218,12 @@ def worker(wdir, q, results, lock, props):
         orig = open(path).read()
         lines = orig.split('\n')
         lines[m['line'] - 1] = m['new_raw'].rstrip('\n')
+        if m.get('line2'):
+            lines[m['line2'] - 1] = m['new_raw2'].rstrip('\n')
         open(path, 'w').write('\n'.join(lines))
         res = dict(m)
         res.pop('new_raw', None)
+        res.pop('new_raw2', None)
         t0 = time.time()
         try:
             rc, out = run('cargo build --offline --lib 2>&1 | tail -3', repo, env, 180)
